@@ -1,7 +1,7 @@
 #!/bin/bash
 # verify_seed.sh <Cxx> <k>: confirm a seeded change in its scratch worktree /tmp/seed_<Cxx>:
 # compiles, whole suite passes with it, demo fails with it and passes without it.  Log on stdout.
-P=$1; K=$2; WT=/tmp/seed_$P; OUT=/tmp/seed_${P}_out
+P=$1; K=$2; WT=${SEEDROOT:-/tmp/seed}_$P; OUT=${SEEDROOT:-/tmp/seed}_${P}_out
 set -u
 cd $WT || exit 9
 git checkout -q -- . ; git apply $OUT/patch$K.diff || { echo "RESULT patch$K apply-failed"; exit 1; }
